@@ -201,6 +201,8 @@ class StandardRequestHandler(ControlRequestHandler):
                         # ... and then return to idle.
                         m.next = 'IDLE'
 
+                    self.handle_setup_token(m)
+
                 # SET_ADDRESS -- The host is trying to assign us an address.
                 with m.State('SET_ADDRESS'):
                     self.handle_register_write_request(m, interface.new_address, interface.address_changed)
@@ -258,6 +260,11 @@ class StandardRequestHandler(ControlRequestHandler):
                         m.d.usb += expecting_ack.eq(0)
                         m.next = 'IDLE'
 
+                    # A new SETUP abandons this request: forget the ACK we were waiting for.
+                    with m.If(interface.tokenizer.new_token & interface.tokenizer.is_setup):
+                        m.d.usb += expecting_ack.eq(0)
+                    self.handle_setup_token(m)
+
                 # GET_CONFIGURATION -- The host is asking for the active configuration number.
                 with m.State('GET_CONFIGURATION'):
                     self.handle_simple_data_request(m, transmitter, interface.active_config)
@@ -271,5 +278,7 @@ class StandardRequestHandler(ControlRequestHandler):
                     with m.If(interface.data_requested | interface.status_requested):
                         m.d.comb += handshake_generator.stall.eq(1)
                         m.next = 'IDLE'
+
+                    self.handle_setup_token(m)
 
         return m
